@@ -237,6 +237,12 @@ def check(pid, tier, seed, replay=None):
     model_exe = None
     if not mok:
         problems.append(("model-build", "model files do not compile:\n" + mo[-3000:]))
+        # failing-input search with the model extracted from the last tree on which it compiled: its spec
+        # predicates still judge what the implementation does now (mismatches with a stale model are not reported as such)
+        stale = os.path.join(BUILD, "ocaml", pid, "drive_model")
+        if os.path.exists(stale):
+            model_exe = stale
+            notes.append("model files do not compile on this tree; spec predicates evaluated with the previously extracted model")
     else:
         eok, eo, model_exe = extract_model(pid, prop.EXTRACT, prop.MODEL_VO)
         if not eok:
